@@ -95,13 +95,18 @@ func genByteSeq(t *rapid.T, l string) [][]byte {
 }
 
 func genBig(t *rapid.T, l string) *big.Int {
-	switch rapid.IntRange(0, 4).Draw(t, l+"k") {
+	switch rapid.IntRange(0, 6).Draw(t, l+"k") {
 	case 0:
 		return new(big.Int)
 	case 1:
 		return big.NewInt(1)
 	case 2:
 		return new(big.Int).Sub(new(big.Int).Lsh(big.NewInt(1), 256), big.NewInt(1))
+	case 3:
+		// wider than one EVM word (the application accepts evaluations of any length)
+		return new(big.Int).Add(new(big.Int).Lsh(big.NewInt(int64(rapid.IntRange(1, 255).Draw(t, l+"hi"))), uint(rapid.SampledFrom([]int{256, 257, 264, 320, 384}).Draw(t, l+"sh"))), big.NewInt(int64(rapid.IntRange(0, 7).Draw(t, l+"lo"))))
+	case 4:
+		return new(big.Int).Lsh(big.NewInt(1), uint(rapid.SampledFrom([]int{8, 63, 64, 248, 255}).Draw(t, l+"pow")))
 	}
 	return new(big.Int).SetBytes(rapid.SliceOfN(rapid.Byte(), 0, 33).Draw(t, l))
 }
